@@ -85,6 +85,10 @@ func (q *queue) length() int {
 	return len(q.items)
 }
 
+// writeSeq orders the client's writes across all links of the process (a connection's reliable and datagram sides are two links:
+// the broker reads them on two goroutines, so the order of the ledger is not the order in which the client wrote).
+var writeSeq uint64
+
 // Link is one transport incarnation between the client and the broker.
 type Link struct {
 	Index   int
@@ -105,6 +109,10 @@ type Link struct {
 	cliDoneAt int64
 	// writeBroken: client writes fail while reads still block (half-open connection)
 	writeBroken int32
+	// wseq: client write sequence numbers of the messages queued towards the broker, in queue order; rcount: how many were received
+	wmu    sync.Mutex
+	wseq   []uint64
+	rcount int
 	// CloseDelay: the client's Close takes that long (a transport whose close handshake waits for a peer that is gone)
 	CloseDelay time.Duration
 
@@ -215,7 +223,24 @@ func (l *Link) Send(b []byte) bool {
 
 // Recv blocks for the next raw message from the client (broker side). ok=false: link is over.
 func (l *Link) Recv() ([]byte, bool) {
-	return l.toBrk.pop(l.dead)
+	b, _, ok := l.RecvSeq()
+	return b, ok
+}
+
+// RecvSeq is Recv plus the client's write sequence number of the message (process-wide order of the client's writes).
+func (l *Link) RecvSeq() ([]byte, uint64, bool) {
+	b, ok := l.toBrk.pop(l.dead)
+	if !ok {
+		return nil, 0, false
+	}
+	l.wmu.Lock()
+	var seq uint64
+	if l.rcount < len(l.wseq) {
+		seq = l.wseq[l.rcount]
+	}
+	l.rcount++
+	l.wmu.Unlock()
+	return b, seq, true
 }
 
 // PendingToClient reports how many messages the client has not read yet.
@@ -254,7 +279,13 @@ func (c *clientEnd) Write(b []byte) error {
 	}
 	cp := make([]byte, len(b))
 	copy(cp, b)
-	if !c.l.toBrk.push(cp) {
+	c.l.wmu.Lock()
+	ok := c.l.toBrk.push(cp)
+	if ok {
+		c.l.wseq = append(c.l.wseq, atomic.AddUint64(&writeSeq, 1))
+	}
+	c.l.wmu.Unlock()
+	if !ok {
 		return transport.ErrAlreadyClosed
 	}
 	atomic.AddUint64(&c.l.tx, uint64(len(b)))
